@@ -85,6 +85,11 @@ func runC06(c *sim.Ctx, t *testing.T) {
 			msgs[i] = typify(draw, mm)
 		}
 	}
+	if !typed && len(msgs) >= 2 && c.Chance(1, 8, "nilmessage") {
+		// an unusual but legal batch: a nil entry followed by a real message
+		k := c.Intn(len(msgs), "nilat")
+		msgs = append(msgs[:k:k], append([]interface{}{nil}, msgs[k:]...)...)
+	}
 	// a scalar message for a branch whose whole pattern is that scalar (the match binds
 	// nothing: the result must still not be the caller's map)
 	scalarNode := ""
